@@ -41,6 +41,7 @@ PANIC_API = [
     (r"^chrono::offset::LocalResult::<.*>::unwrap$", "ambiguous or non-existent local time"),
     (r"^chrono::datetime::DateTime::<.*>::(date|with_timezone)$", None),  # total
     (r"^regex::regex::string::Captures::<.*>::(index)$", "no such group"),
+    (r"^base64::(decode::decode_config_slice|encode::encode_config_slice|decode_config_slice|encode_config_slice)$", "output slice too small"),
     (r"^core::num::<impl (u|i)\d+>::(pow|abs|div_euclid|rem_euclid|next_power_of_two)$", "arithmetic overflow"),
     (r"^core::num::<impl (u|i)size>::(pow|abs|div_euclid|rem_euclid|next_power_of_two)$", "arithmetic overflow"),
     (r"^core::char::methods::<impl char>::(to_digit|is_digit|from_digit)$", "radix out of range"),
